@@ -82,6 +82,10 @@ CHECKS['C02'] = ('3/C02', 'Cores built by the real Reactor (enumerated layouts: 
                  'conduction exchange antisymmetric); a real Reactor.axial_step gives heat leaving each assembly on its mesh = heat credited '
                  'on the gap mesh (1e-9 relative, linear arithmetic); adiabatic option leaves the gap untouched.')
 
+CHECKS['C13'] = ('3/C13', 'PinModel.calculate_temperatures with symbolic power, coolant temperature, film coefficient, step and '
+                 'uninterpreted positive conductivity functions; each outcome of the convergence tests within the fork budget is a path; '
+                 'ordering, zero-power identity, film closed form, clad log-profile and the pin-adjacent coolant average are SMT queries.')
+
 NOT_APPLICABLE = {
     'C16': ('No symbolic dimension for a solver: process schedules/multiprocessing/file output, bitwise IEEE determinism, and '
             'object-identity/type mutation of the input dictionary on `is None`/key-presence branches (DESIGN section 4).'),
